@@ -76,8 +76,11 @@ Definition run_schema (s : sx) : sx :=
               of_optbool (d4 orc flocq_ops dfs fuel sch data);
               ofZs (dedupZ (visit orc dfs fuel sch data));
               (* is the case inside the fragment on which agreement is proved (Schema/Agreement.v, decided by AgreementDec.v)? *)
-              ofBool ((clean_b f_finite false orc fuel sch && jd_b f_finite false (S (goval_depth data)) data) ||
-                      (clean_b f_finite true orc fuel sch && jd_b f_finite true (S (goval_depth data)) data)) ]
+              (let K := length dfs in
+               (* the largest level the fuel of the case allows (AgreementRef.agreement_with_references): n + K < fuel, n * (K + 1) <= fuel *)
+               let n := Nat.min (fuel - K - 1) (Nat.div fuel (S K)) in
+               ofBool ((cleanr_b f_finite false orc dfs K n sch && jd_b f_finite false (S (goval_depth data)) data) ||
+                       (cleanr_b f_finite true orc dfs K n sch && jd_b f_finite true (S (goval_depth data)) data))) ]
       | _, _, _, _, _, _ => sx_err
       end
   | _ => sx_err
